@@ -15,6 +15,11 @@ import (
 var (
 	regFlags         = regexp.MustCompile(`flags=\(([^)]+)\)`)
 	regProfileHeader = regexp.MustCompile(` {\n`)
+
+	// A line that opens a block, comments left out; among them the ones that
+	// open a block of rules (qualifiers, conditions) and not a profile
+	regBlockHeader = regexp.MustCompile(`(?m)^[\t ]*[^#\s][^\n]* {\n`)
+	regRuleBlock   = regexp.MustCompile(`^[\t ]*(((audit|deny|allow|owner)[\t ]+)*|(if|else|})[^\n]*){\n$`)
 )
 
 type SetFlags struct {
@@ -48,9 +53,15 @@ func (p SetFlags) Apply() ([]string, error) {
 					return res, err
 				}
 
-				// Remove all flags definition, then set manifest' flags
-				out = regFlags.ReplaceAllLiteralString(out, "")
-				out = regProfileHeader.ReplaceAllLiteralString(out, flagsStr)
+				// Remove all flags definition, then set manifest' flags, on
+				// the lines that open a profile or a hat only
+				out = regBlockHeader.ReplaceAllStringFunc(out, func(header string) string {
+					if regRuleBlock.MatchString(header) {
+						return header
+					}
+					header = regFlags.ReplaceAllLiteralString(header, "")
+					return regProfileHeader.ReplaceAllLiteralString(header, flagsStr)
+				})
 				if err := file.WriteFile([]byte(out)); err != nil {
 					return res, err
 				}
